@@ -127,7 +127,37 @@ struct FlatSetEngine : EngineBase {
 
   static const char *szcls(size_t n) { return n == 0 ? "empty" : n < 4 ? "small" : n <= 16 ? "mid" : "big"; }
   std::string st(int i) { return szcls(M[i]->size()); }
-  size_t room(int i) { return kMaxSet > M[i]->size() ? kMaxSet - M[i]->size() : 0; }
+  // bounded underlying vector (FixedCapacityVector): single insertions stay within its capacity; merges are allowed to run into it (see op_pair)
+  template <class V_ = VecT> static typename std::enable_if<std::is_same<typename V_::allocator_type, amc::vec::EmptyAlloc>::value, size_t>::type under_capacity() { return static_cast<size_t>(VecInfo<V_>::kN); }
+  template <class V_ = VecT> static typename std::enable_if<!std::is_same<typename V_::allocator_type, amc::vec::EmptyAlloc>::value, size_t>::type under_capacity() { return 1000000; }
+  size_t max_set() const { return std::min<size_t>(kMaxSet, under_capacity()); }
+  size_t room(int i) { return max_set() > M[i]->size() ? max_set() - M[i]->size() : 0; }
+  // A merge whose result would not fit the bounded underlying vector: the vector throws std::out_of_range in the middle of the merge. std::set has no
+  // such limit, so the model cannot say what the sets hold afterwards; what must still hold (C02, C09-like): every visible element alive and not
+  // moved-from, both sets strictly ordered, no element lost or duplicated (the multiset of (key, payload) over both sets is unchanged).
+  template <class SetX, class ModelX>
+  bool overflowing_merge_after(Set &dst, Model &md, SetX &src, ModelX &msrc, const std::vector<Val> &before_all) {
+    if (!threw) { violation("C03,C08", "merge.no_exception_beyond_capacity", "the merged set cannot fit the underlying FixedCapacityVector but merge did not throw"); return false; }
+    if (threw_what.find("out_of_range") == std::string::npos) { violation("C03,C08", "merge.wrong_exception", fmt("merge beyond the fixed capacity threw %s", threw_what.c_str())); return false; }
+    MonScope mm;
+    std::vector<Val> a = seq(dst), b = seq(src);  // probes every element (alive, not moved-from)
+    if (g_cut) return false;
+    std::vector<Val> all(a);
+    all.insert(all.end(), b.begin(), b.end());
+    std::vector<Val> want(before_all);
+    auto lessv = [](const Val &x, const Val &y) { return x.key != y.key ? x.key < y.key : x.pay < y.pay; };
+    std::sort(all.begin(), all.end(), lessv);
+    std::sort(want.begin(), want.end(), lessv);
+    if (!same_vals(all, want)) { violation("C02,C03", "merge.elements_lost_or_duplicated_by_failed_merge", fmt("both sets together held %s before the failed merge, %s after", vals_str(want).c_str(), vals_str(all).c_str())); return false; }
+    // resynchronise the models with what the sets hold now (order and uniqueness are then judged by verify())
+    md.clear();
+    md.insert(a.begin(), a.end());
+    msrc.clear();
+    msrc.insert(b.begin(), b.end());
+    if (md.size() != a.size() || msrc.size() != b.size()) { violation("C03", "merge.equivalent_duplicates_after_failed_merge", "a set holds two equivalent elements after the failed merge"); return false; }
+    ++counters["merges_beyond_fixed_capacity"];
+    return true;
+  }
 
   template <class It>
   long idx(const Set &s, It it) { return static_cast<long>(it - s.begin()); }
@@ -300,6 +330,7 @@ struct FlatSetEngine : EngineBase {
     bool had = !nh->empty();
     Val nval = had ? want : Val();
     bool present = had && md.count(nval) != 0;
+    if (had && !present && room(a) == 0) { MonScope mm; delete nh; verify(); return; }  // the destination (bounded underlying vector) is full
     size_t h = rng.below(static_cast<uint32_t>(md.size() + 1));
     set_op(hinted ? "insert(hint,node)" : "insert(node)", st(a), !had ? "empty-node" : present ? "present" : "absent", fmt("S%d <- node %d.%u", a, nval.key, nval.pay));
     long got = -1;
@@ -570,16 +601,26 @@ struct FlatSetEngine : EngineBase {
     switch (form) {
       case 0: {
         if (m.size() + mo.size() > kMaxSet + 24) return;
-        set_op("merge(same)", sts, "-", fmt("S%d <- S%d", a, b));
+        size_t uni;
+        std::vector<Val> before_all;
+        { MonScope mm; Model t(m); t.insert(mo.begin(), mo.end()); uni = t.size(); before_all.assign(m.begin(), m.end()); before_all.insert(before_all.end(), mo.begin(), mo.end()); }
+        const bool overflow = uni > under_capacity();
+        set_op("merge(same)", sts, overflow ? "beyond-fixed-capacity" : "-", fmt("S%d <- S%d", a, b));
         window([&] { s.merge(o); });
+        if (overflow) { if (!overflowing_merge_after(s, m, o, mo, before_all)) return; threw = false; break; }
         MonScope mm;
         m.merge(mo);
         break;
       }
       case 1: {
         if (m.size() + TM->size() > kMaxSet + 24) return;
-        set_op("merge(other-compare)", st(a) + "|" + szcls(TM->size()), "-", fmt("S%d <- T", a));
+        size_t uni;
+        std::vector<Val> before_all;
+        { MonScope mm; Model t(m); t.insert(TM->begin(), TM->end()); uni = t.size(); before_all.assign(m.begin(), m.end()); before_all.insert(before_all.end(), TM->begin(), TM->end()); }
+        const bool overflow = uni > under_capacity();
+        set_op("merge(other-compare)", st(a) + "|" + szcls(TM->size()), overflow ? "beyond-fixed-capacity" : "-", fmt("S%d <- T", a));
         window([&] { s.merge(*T); });
+        if (overflow) { if (!overflowing_merge_after(s, m, *T, *TM, before_all)) return; threw = false; break; }
         MonScope mm;
         m.merge(*TM);
         break;
@@ -644,7 +685,7 @@ struct FlatSetEngine : EngineBase {
 
   void fill_spare() {
     bool bulk = rng.chance(1, 3);
-    size_t n = std::min<size_t>(bulk ? 17 + rng.below(8) : rng.below(9), kMaxRange);
+    size_t n = std::min<size_t>(std::min<size_t>(bulk ? 17 + rng.below(8) : rng.below(9), kMaxRange), under_capacity());
     std::vector<Val> vals = gen_vals(n, bulk ? 40 : 12);
     set_op("spare:assign", szcls(VM.size()), n > 16 ? "n>16" : "n<=16", vals_str(vals));
     with_range<E>(RK_MOVE, vals, [&](auto f, auto l) { window([&] { V->assign(f, l); }); });
@@ -695,7 +736,7 @@ struct FlatSetEngine : EngineBase {
       case 3: {  // range constructor / il constructor
         bool il = rng.chance(1, 3) && EI<E>::kCopyable;
         bool bulk = rng.chance(1, 3);
-        size_t n = il ? rng.below(4) : std::min<size_t>(bulk ? 17 + rng.below(8) : rng.below(9), kMaxRange);
+        size_t n = il ? rng.below(4) : std::min<size_t>(std::min<size_t>(bulk ? 17 + rng.below(8) : rng.below(9), kMaxRange), under_capacity());
         std::vector<Val> vals = gen_vals(n, bulk ? 40 : 12);
         int kind = EI<E>::kCopyable ? rng.below(RK_N) : RK_MOVE;
         set_op(il ? "ctor(il)" : "ctor(range)", "-", (il ? std::string("il") : std::string(rkname(kind))) + (n > 16 ? ",n>16" : ",n<=16"), fmt("S%d %s", a, vals_str(vals).c_str()));
@@ -718,7 +759,7 @@ struct FlatSetEngine : EngineBase {
         break;
       }
       case 5: {
-        size_t n = std::min<size_t>(m.size() + rng.below(8), kFixedUnder ? 64 : 80);
+        size_t n = std::min<size_t>(m.size() + rng.below(8), kFixedUnder ? under_capacity() : 80);
         bool shrink = rng.chance(1, 2);
         set_op(shrink ? "shrink_to_fit" : "reserve", st(a), "-", fmt("S%d n=%zu", a, n));
         if (shrink) window([&] { s.shrink_to_fit(); });
@@ -754,7 +795,7 @@ struct FlatSetEngine : EngineBase {
 
   void op_other() {  // keep the differently ordered set T lively
     Val x = nv();
-    if (TM->size() >= kMaxSet || rng.chance(1, 5)) {
+    if (TM->size() >= max_set() || rng.chance(1, 5)) {
       set_op("T:clear", szcls(TM->size()), "-", "");
       window([&] { T->clear(); });
       MonScope mm;
